@@ -701,7 +701,12 @@ func vc24Chunks(t *rapid.T, p []byte) [][]byte {
 	return res
 }
 
-func vc24Stream(svc *Service, hdr *object.Object, chunks [][]byte, st *session.Object, st2 *sessionv2.Token) (oid.ID, error) {
+func vc24Stream(svc *Service, hdr *object.Object, chunks [][]byte, st *session.Object, st2 *sessionv2.Token) (id oid.ID, err error) {
+	defer func() {
+		if r := recover(); r != nil {
+			err = fmt.Errorf("%w: %v", errVC24Panic, r)
+		}
+	}()
 	stream, err := svc.Put(context.Background())
 	if err != nil {
 		return oid.ID{}, err
@@ -715,12 +720,15 @@ func vc24Stream(svc *Service, hdr *object.Object, chunks [][]byte, st *session.O
 			return oid.ID{}, fmt.Errorf("chunk: %w", err)
 		}
 	}
-	id, err := stream.Close()
+	id, err = stream.Close()
 	if err != nil {
 		return oid.ID{}, fmt.Errorf("close: %w", err)
 	}
 	return id, nil
 }
+
+// errVC24Panic marks a panic inside the PUT service (always a failure of the check).
+var errVC24Panic = errors.New("PANIC in the PUT service")
 
 // ---------------------------------------------------------------------------
 // client-signed objects: Streamer and replication
@@ -1069,22 +1077,33 @@ func TestVerifC24Sliced(t *testing.T) {
 		rec.Case(mut != "none" || nChildren >= 2, fmt.Sprintf("%s|%s|%d|%t|%d|v%d|%s", cl.name, mut, n, declared, len(chunks), tokVer, role),
 			"cluster:"+cl.name, "mut:"+mut, fmt.Sprintf("children:%d", min(nChildren, 5)), "role:"+role, fmt.Sprintf("token:v%d", tokVer), fmt.Sprintf("faults:%t", faults > 0), fmt.Sprintf("ok:%t", err == nil))
 
+		// A swallowed payload-write error (known class) can only show up when a write
+		// fails: more bytes than declared, or an injected storage failure.
+		fail := func(format string, a ...any) {
+			if (faults > 0 || mut == "stream-longer") && rec.Known("C24:validating-target-swallows-write-error") {
+				return
+			}
+			rt.Fatalf("C24 violation: "+format+fmt.Sprintf("\ncluster=%s len=%d declared=%t mut=%s through=%d token=v%d faults=%d", cl.name, n, declared, mut, through, tokVer, faults), a...)
+		}
+		if errors.Is(err, errVC24Panic) {
+			fail("%v", err)
+			return
+		}
 		// whatever happened, every stored piece must be a self-consistent authenticated object
 		for i := range stored {
 			if e := vc24CheckStored(&stored[i], cl.rules); e != nil {
-				rt.Fatalf("C24 violation: node-sliced upload (%s, len=%d, mut=%s) left an inconsistent object %s: %v", cl.name, n, mut, stored[i].GetID(), e)
+				fail("node-sliced upload left an inconsistent object %s: %v", stored[i].GetID(), e)
+				return
 			}
 		}
 		if mut != "none" {
 			if err == nil {
-				if mut == "stream-longer" && rec.Known("C24:validating-target-swallows-write-error") {
-					return
-				}
-				rt.Fatalf("C24 violation: upload with %s (%s, len=%d declared=%t) succeeded", mut, cl.name, n, declared)
+				fail("upload with %s succeeded", mut)
+				return
 			}
 			if strings.HasPrefix(mut, "attr-") || mut == "ec-attrs" {
 				if len(stored) != 0 {
-					rt.Fatalf("C24 violation: header with %s rejected (%v) but %d objects stored", mut, err, len(stored))
+					fail("header with %s rejected (%v) but %d objects stored", mut, err, len(stored))
 				}
 			}
 			return
@@ -1096,28 +1115,28 @@ func TestVerifC24Sliced(t *testing.T) {
 			rt.Fatalf("valid node-sliced upload rejected (%s, len=%d, via node %d, token v%d): %v", cl.name, n, through, tokVer, err)
 		}
 		got, root, nCh, rerr := vc24Reassemble(stored, cl.rules)
-		if rerr != nil {
-			rt.Fatalf("C24 violation: stored pieces of a successful upload (%s, len=%d) do not reassemble: %v", cl.name, n, rerr)
-		}
-		if !bytes.Equal(got, payload) {
-			rt.Fatalf("C24 violation: reassembled payload differs from the streamed one (%s, len=%d, got %d bytes, %d children)", cl.name, n, len(got), nCh)
-		}
-		if root.GetID() != rootID {
-			rt.Fatalf("C24 violation: PUT returned ID %s, stored root header has %s", rootID, root.GetID())
-		}
-		if root.PayloadSize() != uint64(n) {
-			rt.Fatalf("C24 violation: root header payload size %d, streamed %d", root.PayloadSize(), n)
-		}
-		if cs, _ := root.PayloadChecksum(); !bytes.Equal(cs.Value(), vc24Sum(payload)) {
-			rt.Fatalf("C24 violation: root header checksum is not the checksum of the streamed payload")
-		}
-		if e := vc24CheckHeaderAuth(root); e != nil {
-			rt.Fatalf("C24 violation: root header: %v", e)
-		}
-		if root.Owner() != owner.UserID() {
-			rt.Fatalf("C24 violation: root owner is not the session issuer")
+		switch {
+		case rerr != nil:
+			fail("stored pieces of a successful upload do not reassemble: %v", rerr)
+		case !bytes.Equal(got, payload):
+			fail("reassembled payload differs from the streamed one (got %d bytes, %d children)", len(got), nCh)
+		case root.GetID() != rootID:
+			fail("PUT returned ID %s, stored root header has %s", rootID, root.GetID())
+		case root.PayloadSize() != uint64(n):
+			fail("root header payload size %d, streamed %d", root.PayloadSize(), n)
+		case !bytes.Equal(vc24ChecksumValue(root), vc24Sum(payload)):
+			fail("root header checksum is not the checksum of the streamed payload")
+		case vc24CheckHeaderAuth(root) != nil:
+			fail("root header: %v", vc24CheckHeaderAuth(root))
+		case root.Owner() != owner.UserID():
+			fail("root owner is not the session issuer")
 		}
 	})
+}
+
+func vc24ChecksumValue(o *object.Object) []byte {
+	cs, _ := o.PayloadChecksum()
+	return cs.Value()
 }
 
 // ---------------------------------------------------------------------------
